@@ -1088,6 +1088,9 @@ def specs(tier):
     return out
 
 
+SPLIT_TOP = 24
+
+
 def plan(tier, seed):
     jobs = []
     for h, n, fine, bound in specs(tier):
@@ -1100,10 +1103,12 @@ def plan(tier, seed):
         firsts = sched.first_level(ex, bound)
         jobs.append({"spec": spec, "bound": bound, "root": True, "prefixes": [[]], "det": det, "points": len(ex.points), "w": 0})
         heavy = tier != "quick" and ((n >= 3 and (bound is None or bound >= 3)) or (fine and (bound is None or bound >= 2)) or (n >= 3 and fine))
+        # (only the SPLIT_TOP largest first-level sub-trees are split: planning runs one execution per split sub-tree)
+        big = set(map(tuple, sorted(firsts, key=len)[:SPLIT_TOP])) if heavy else set()
         for pre in firsts:
             # one job per first-level sub-tree; earlier branch points have larger sub-trees: start them first
             w = (len(ex.points) - len(pre)) * (3 if n > 2 else 1)
-            if not heavy:
+            if tuple(pre) not in big:
                 jobs.append({"spec": spec, "bound": bound, "root": False, "prefixes": [pre], "w": w})
                 continue
             # deep specifications: one job per SECOND-level sub-tree (the first-level execution itself is a job of its own),
